@@ -16,7 +16,7 @@ fn main() {
     let prop = Property {
         id: "C20",
         level: "exploration",
-        rule: "the same object bytes and configuration are given to senders through: in-memory buffer, Cursor, a real File, BufReader<File>, flute's create_from_file with and without RAM cache, and a seekable ChunkedReader returning short reads on a schedule (1 byte, 7, 10, 4096, mixed, random sizes, reads interrupted by ErrorKind::Interrupted once in five calls and three times in six); boundary lattice of object sizes x 5 FEC schemes x block byte sizes below and above 8 KiB x transfer counts 1-3 x interleave 1-3; oracle (metamorphic): the object packet sequences are byte-identical to the buffer sender's (same virtual instants, same TOI), transfers 2..n equal transfer 1 apart from the close-object flag, and the chunked source saw seek(Start(0)) before every transfer; (huge_stream) No-Code stream objects of 2^32-1 .. 2^33+5 bytes whose content is a function of the offset (full and short reads): every packet of the transfer is checked against the reference partition and the content at its offset, all source symbols once, close-object flag last; a case is one object x all sources, non-trivial when object packets were compared; distinct = object shape; objects of odd length are created through the typed-builder front ends (CreateFromBuffer / CreateFromStream / CreateFromFile), the others through the positional constructors",
+        rule: "the same object bytes and configuration are given to senders through: in-memory buffer, Cursor, a real File, BufReader<File>, flute's create_from_file with and without RAM cache, and a seekable ChunkedReader returning short reads on a schedule (1 byte, 7, 10, 4096, mixed, random sizes, reads interrupted by ErrorKind::Interrupted once in five calls and three times in six); boundary lattice of object sizes x 5 FEC schemes x block byte sizes below and above 8 KiB x transfer counts 1-3 x interleave 1-3; oracle (metamorphic): the object packet sequences are byte-identical to the buffer sender's (same virtual instants, same TOI), transfers 2..n equal transfer 1 apart from the close-object flag, and the chunked source saw seek(Start(0)) before every transfer; (huge_stream) No-Code stream objects of 2^32-1 .. 2^33+5 bytes whose content is a function of the offset (full and short reads): every packet of the transfer is checked against the reference partition and the content at its offset, all source symbols once, close-object flag last; a case is one object x all sources, non-trivial when object packets were compared; distinct = object shape; objects of odd length are created through the typed-builder front ends (CreateFromBuffer / CreateFromStream / CreateFromFile), the others through the positional constructors; big_cached_file: 64 MiB +- 1000 bytes of compressible content with a content encoding, buffer against create_from_file(cache in RAM), packets compared byte for byte",
         assumptions: vec![
             "sources that return errors (other than ErrorKind::Interrupted during transmission) or lie about their length are out of scope; an Interrupted read during the MD5 pass at creation makes create_from_stream fail loudly, so interrupting sources are used without MD5; stream sources cannot be combined with content encoding (flute refuses)".into(),
             "FDT packets are not compared byte by byte (instance ids and Expires are irrelevant here); the announced Content-MD5 is".into(),
